@@ -86,7 +86,7 @@ pub(crate) fn collect_str_consts(f: &syn::File) {
     STR_CONSTS.with(|m| *m.borrow_mut() = c.0);
 }
 
-fn const_str(e: &syn::Expr) -> Option<String> {
+pub(crate) fn const_str(e: &syn::Expr) -> Option<String> {
     let name = last_segment(e)?;
     STR_CONSTS.with(|m| m.borrow().get(&name).cloned())
 }
